@@ -12,9 +12,11 @@ import (
 	"strconv"
 	"strings"
 	"syscall"
+	"time"
 
 	"github.com/Vedant9500/WTF/internal/database"
 	"github.com/Vedant9500/WTF/internal/history"
+	"github.com/Vedant9500/WTF/internal/utils"
 )
 
 func init() {
@@ -431,6 +433,83 @@ func atomicRun(args []string) int {
 					Success: strings.Contains(o2, "saved successfully"), Note: fmt.Sprintf("%s; %d files beside the notebook after the killed run", label, len(left)-1)})
 			}
 		}
+	}
+	// 4b. the same for the history: the first search is killed while saving after k bytes - at every k where what has been
+	// written so far ends in a closing brace (looks complete to a careless reader) and a few others - then another search runs
+	{
+		sc := atScenario{"history", "search", 12}
+		old := d.writeOld(sc)
+		d.run(nil, sc)
+		neu, _ := os.ReadFile(d.target(sc))
+		ks := []int{1, len(neu) / 3, len(neu) - 2}
+		for k := 2; k < len(neu); k++ {
+			t := bytes.TrimSpace(neu[:k])
+			if len(t) > 0 && t[len(t)-1] == '}' && (neu[k-1] == '}' || k%2 == 0) {
+				ks = append(ks, k)
+			}
+		}
+		if len(ks) > 40 {
+			ks = ks[:40]
+		}
+		second := []string{"search", "--database", d.mainF, "--", "compress", "archive"}
+		for _, k := range ks {
+			d.writeOld(sc)
+			d.run([]string{d.self, "limit-exec", strconv.Itoa(k), d.strace, "-f", "-o", os.DevNull, "-e", "trace=unlink,unlinkat", "-e", "inject=unlink,unlinkat:signal=SIGKILL:when=1"}, sc)
+			b1, err1 := os.ReadFile(d.target(sc))
+			d.runArgs(nil, second)
+			r2, _ := os.ReadFile(d.target(sc))
+			h2 := history.NewSearchHistory(d.target(sc), 100)
+			loads := h2.Load() == nil
+			got, parsed := histQueries(r2)
+			os.RemoveAll(filepath.Join(d.home, ".config"))
+			os.MkdirAll(filepath.Dir(d.target(sc)), 0o755)
+			if err1 == nil {
+				os.WriteFile(d.target(sc), b1, 0o644)
+			}
+			d.runArgs(nil, second)
+			e2, _ := os.ReadFile(d.target(sc))
+			want, _ := histQueries(e2)
+			after := "damaged"
+			if parsed && loads && strings.Join(got, "\x00") == strings.Join(want, "\x00") && len(got) == len(want) {
+				after = "new"
+			}
+			d.tr++
+			d.w.emit(&atEv{Op: "fault", Tr: d.tr, File: "history", Cmd: "search", Kind: "leftover", At: strconv.Itoa(k), After: after, Loads: loads && parsed, HadOld: old != nil,
+				Success: false, Note: fmt.Sprintf("history/search/old=12; first search killed after %d bytes of its save, %d entries afterwards (expected %d)", k, len(got), len(want))})
+		}
+	}
+	// 4c. a write that fails part-way once and would succeed on a second try (a disk that is full for a moment): whatever the
+	// writer does about it, the file ends up old (and an error is returned) or new
+	for _, k := range []uint64{1, 100, 3000} {
+		tp := filepath.Join(tmpDir(), fmt.Sprintf("transient-%d", k), "personal.yml")
+		os.MkdirAll(filepath.Dir(tp), 0o755)
+		oldData := []byte(strings.Repeat("- command: old entry\n  description: something saved earlier\n", 150))
+		newData := []byte(strings.Repeat("- command: new entry\n  description: the replacement content\n", 160))
+		os.WriteFile(tp, oldData, 0o644)
+		var cur, lim syscall.Rlimit
+		syscall.Getrlimit(syscall.RLIMIT_FSIZE, &cur)
+		lim = cur
+		lim.Cur = k
+		syscall.Setrlimit(syscall.RLIMIT_FSIZE, &lim)
+		go func() {
+			time.Sleep(15 * time.Millisecond)
+			syscall.Setrlimit(syscall.RLIMIT_FSIZE, &cur)
+		}()
+		werr := utils.WriteFileAtomic(tp, newData, 0o644)
+		time.Sleep(20 * time.Millisecond)
+		syscall.Setrlimit(syscall.RLIMIT_FSIZE, &cur)
+		b, _ := os.ReadFile(tp)
+		after := "damaged"
+		switch {
+		case bytes.Equal(b, oldData):
+			after = "old"
+		case bytes.Equal(b, newData):
+			after = "new"
+		}
+		_, lerr := database.LoadDatabase(tp)
+		d.tr++
+		d.w.emit(&atEv{Op: "fault", Tr: d.tr, File: "notebook", Cmd: "library", Kind: "transient-write-failure", At: fmt.Sprint(k), After: after, Loads: lerr == nil, HadOld: true,
+			Success: werr == nil, Note: fmt.Sprintf("file-size limit of %d bytes lifted 15 ms into the write; WriteFileAtomic returned %v; %d bytes on disk (old %d, new %d)", k, werr, len(b), len(oldData), len(newData))})
 	}
 	// 5. one history object saving several times (a long-running caller): a save that fails - the file-size limit is lowered
 	// for that one call - must leave nothing behind that spoils the next, successful save
